@@ -29,6 +29,7 @@ type Profile struct {
 	NoReplay    bool           // never reuse bytes/proofs of other ops (needed for isolation comparisons)
 	PlantPct    int            // percentage of refresh ops preceded by planting a day-old cosignature
 	DrvFaults   bool           // faults may also hit SQL driver calls
+	CancelPct   int            // percentage of injected faults that are "the request's context is cancelled during a storage call" instead of an error
 	MixOldPct   int            // percentage of ops (of any class) whose old size is replaced by a hostile one: requests that fall under two rules at once
 	ECDSAPct    int            // percentage of logs whose key is ECDSA P-256 (several shipped logs use such keys)
 	NonCanonPct int            // percentage of log-signed checkpoints written non-canonically (leading zeros in the size, spare base64 bits set)
@@ -94,10 +95,10 @@ func weighted(t *rapid.T, w map[string]int, label string) string {
 	return keys[len(keys)-1]
 }
 
-var opClassOrder = []string{"grow", "refresh", "fork", "wrongold", "badproof", "replay", "garbage", "unkroot", "oddroot", "wrongkey", "wrongorigin", "unknownlog", "smaller", "decorated", "zero", "mismatch", "tofufork"}
+var opClassOrder = []string{"grow", "refresh", "fork", "wrongold", "badproof", "replay", "garbage", "unkroot", "oddroot", "wrongkey", "wrongorigin", "unknownlog", "smaller", "decorated", "zero", "mismatch", "tofufork", "echo"}
 
 // DefaultWeights is the adversarial mix used by most history properties.
-var DefaultWeights = map[string]int{"grow": 30, "refresh": 8, "fork": 12, "wrongold": 8, "badproof": 12, "replay": 4, "garbage": 5, "unkroot": 3, "oddroot": 1, "wrongkey": 4, "wrongorigin": 3, "unknownlog": 2, "smaller": 4, "decorated": 4, "mismatch": 5}
+var DefaultWeights = map[string]int{"grow": 30, "refresh": 8, "fork": 12, "wrongold": 8, "badproof": 12, "replay": 4, "garbage": 5, "unkroot": 3, "oddroot": 1, "wrongkey": 4, "wrongorigin": 3, "unknownlog": 2, "smaller": 4, "decorated": 4, "mismatch": 5, "echo": 4}
 
 func genDelta(t *rapid.T, maxJump int, label string) int64 {
 	switch rapid.IntRange(0, 9).Draw(t, label+"_cls") {
@@ -241,11 +242,16 @@ func GenHist(t *rapid.T, p Profile) *HistCase {
 				nf = 2
 			}
 			for k := 0; k < nf; k++ {
-				op.Faults = append(op.Faults, FaultSpec{
+				f := FaultSpec{
 					Point: points[Uniform(t, len(points), "fpoint")],
 					Code:  rapid.SampledFrom([]string{"plain", "unavailable", "internal", "deadline"}).Draw(t, "fcode"),
 					Nth:   rapid.IntRange(0, 1).Draw(t, "fnth"),
-				})
+				}
+				if p.CancelPct > 0 && Pct(t, p.CancelPct, "cancelctx") {
+					// the request's own context ends while a storage call is in flight
+					f = FaultSpec{Point: rapid.SampledFrom([]string{PWriteOps, PWriteGet, PWriteSet}).Draw(t, "cpoint"), Code: "cancelctx"}
+				}
+				op.Faults = append(op.Faults, f)
 			}
 		}
 		if (op.Note == "refresh" || op.Note == "zero") && Pct(t, p.PlantPct, "plant") {
@@ -402,6 +408,16 @@ func genOp(t *rapid.T, p Profile, w map[string]int, i, nlogs, nb, nwk int) Op {
 			op.Cp.RootTag = rapid.IntRange(0, 3).Draw(t, "mmtag")
 		}
 		op.Proof.Kind = rapid.SampledFrom([]string{"empty", "correct", "random"}).Draw(t, "mmproof")
+	case "echo":
+		// hand the witness back exactly what it returned (its own cosigned note), as a
+		// refresh, with or without a proof
+		op.Cp.Replay = rapid.IntRange(1, i+1).Draw(t, "echoidx")
+		if rapid.Bool().Draw(t, "echolast") {
+			op.Cp.Replay = i // the immediately preceding op (0 = none: falls back to a fresh checkpoint)
+		}
+		op.Cp.ReplayOut = true
+		op.Old = SizeSpec{Rel: "cur"}
+		op.Proof = ProofSpec{Kind: rapid.SampledFrom([]string{"empty", "random", "replay", "extra", "correct"}).Draw(t, "echoproof"), I: rapid.IntRange(0, 5).Draw(t, "echopi"), J: rapid.IntRange(0, 255).Draw(t, "echopj")}
 	case "tofufork":
 		// a validly signed checkpoint of another branch presented as if it were first use
 		op.Cp.Branch = rapid.IntRange(0, nb-1).Draw(t, "tfbranch")
